@@ -18,6 +18,7 @@ type dcase struct {
 	target []byte // for origin diff: the target DiffDelta was asked to encode
 	hasTgt bool
 	level  int // zlib level used when the delta is embedded in a pack
+	full   bool // run every applier variant (first cases of each model class)
 }
 
 func leb(v uint64) []byte {
